@@ -114,6 +114,7 @@ type Op struct {
 	Vis  VisitorKind `json:"vis,omitempty"`
 	N    int         `json:"n,omitempty"`    // bulk count / callback kind
 	Park bool        `json:"park,omitempty"` // park (stall) inside the user function
+	Slow bool        `json:"slow,omitempty"` // slow user function: frozen inside it until nobody else can move
 }
 
 func (o Op) String() string {
@@ -273,6 +274,9 @@ func (w *World) userFn(r *Rec) func(old int64, loaded bool) (int64, bool) {
 		if r.Op.Park {
 			simrt.Park()
 		}
+		if r.Op.Slow {
+			simrt.ParkResumable()
+		}
 		switch r.Op.Fn {
 		case FnDelete:
 			return 0, true
@@ -307,6 +311,9 @@ func (w *World) valueFn(r *Rec) func() int64 {
 		r.FnSeq = w.seq()
 		if r.Op.Park {
 			simrt.Park()
+		}
+		if r.Op.Slow {
+			simrt.ParkResumable()
 		}
 		return r.Op.Val
 	}
